@@ -54,6 +54,22 @@ def run(repo, rep):
     rep.clause("C05-d", "HillClimb search and allocate_lr have a ranking: bounded counter, strict improvement, strictly increasing address")
     rep.clause("C05-d'", "overlap / fit / liveness comparisons are at least as conservative as their canonical forms; the offset tested is the offset taken; aborted partial allocations are never accepted")
     rep.undecided("non-overlap of simultaneously live ranges for every range set; footprint >= peak live sum")
+    # every way out of get_or_create_range has applied the requested alignment to the range it returns
+    from ..cfg import cfg_of as _cfg5
+
+    lrm = repo.mod("live_range")
+    gf = lrm.func("LiveRangeGraph.get_or_create_range")
+    c5 = _cfg5(gf)
+    appl = c5.nodes_where(lambda n_: n_.stmt is not None and n_.kind != "test" and ("set_alignment(alignment)" in str(norm(n_.stmt)) or "LiveRange(tens, alignment)" in str(norm(n_.stmt))))
+    rets5 = [n_ for n_ in c5.nodes[3:] if n_.stmt is not None and isinstance(n_.stmt, ast.Return)]
+    if not appl or not rets5:
+        raise AnalysisError("get_or_create_range: alignment application / returns not found")
+    for r_ in rets5:
+        rep.check(any(c5.dominates(a_, r_.id) for a_ in appl), "C05-a", "ethosu/vela/live_range.py:LiveRangeGraph.get_or_create_range", f"`{str(norm(r_.stmt))}` (line {r_.stmt.lineno}) follows set_alignment(alignment) / LiveRange(tens, alignment)",
+                  "a live range is returned without the requested alignment having been applied: a later, stricter request (CPU tensor alignment for an NPU output) is silently dropped")
+    from . import c12
+
+    rep.run_borrowed(c12, {"C12-b": "C05-a"}, repo)
     from .shared import duplicate_branch_lint
 
     duplicate_branch_lint(repo, rep, "C05-c", ['tensor_allocation', 'greedy_allocation', 'hillclimb_allocation', 'live_range'])
